@@ -413,3 +413,43 @@ def check_atoms(core, chk, cases, imap, amap=None, found_so_far=False, limit=6):
                                                      "backtracks": bts}, no_input=True)
             bad += 1
     return res, bad > 0
+
+
+# ---------------------------------------------------------------- chain structure tie (Model/ReSplit.lean vs. the compiled strings)
+def check_chain(core, chk, cases, amap, limit=6, skip=None):
+    """the pieces and gaps the Lean model of yr_re_ast_split_at_chaining_point gives a string == the chain the real compiler
+    built (h_re `strs=`: one YR_STRING per piece, chained_to the previous one, chain_gap_min / chain_gap_max)"""
+    lines, want = [], {}
+    res = {"compared": 0, "chained": 0, "mismatch": 0, "skipped_ambiguous": 0}
+    for c in cases:
+        cid = c.split(" ", 1)[0]
+        toks = dict(t.split("=", 1) for t in c.split()[1:] if "=" in t)
+        if skip is not None and skip(toks):
+            res["skipped_ambiguous"] += 1
+            continue
+        al = amap.get(cid, "")
+        st = [t for t in al.split() if t.startswith("strs=")]
+        if "mstr" in toks or toks.get("re", "?") == "?" or " OK " not in al or not st or st[0] == "strs=-":
+            continue
+        ents = sorted((e.split(":") for e in st[0][5:].split(";")), key=lambda e: int(e[0]))
+        ok_links = all(e[2] == ("-" if i == 0 else str(i - 1)) for i, e in enumerate(ents))
+        impl = "%d %s" % (len(ents), ",".join("%s:%s" % (e[3], e[4]) for e in ents[1:]) or "-")
+        want[cid] = (c, impl, ok_links)
+        lines.append("%s re=%s x=1" % (cid, toks["re"]))
+    out, _ = run_robust(core, [core.driver_path(), "resplit"], lines, chunk_timeout=300, single_timeout=30)
+    bad = 0
+    for cid, (c, impl, ok_links) in want.items():
+        ml = out.get(cid)
+        if ml is None:
+            continue
+        t = ml.split()
+        model = "%s %s" % (t[2], t[3]) if len(t) >= 4 and t[1] == "C" else ml
+        res["compared"] += 1
+        res["chained"] += int(not impl.startswith("1 "))
+        if model != impl or not ok_links:
+            res["mismatch"] += 1
+            if bad < limit:
+                chk.violation("chain_%s.json" % cid, {"kind": "chain structure (pieces, gaps) differs from the Lean model of yr_re_ast_split_at_chaining_point", "engine": "re",
+                                                     "harness": "h_re", "case": c, "implementation": impl, "model_spec": model, "links_ok": ok_links}, no_input=True)
+            bad += 1
+    return res, bad > 0
